@@ -938,6 +938,11 @@ func run(c *core.Ctx) {
 			c.NotExhaustive(fmt.Sprintf("soft deadline: of %d (license, target) blocks, %d finished the %d masks with <=1 bit set or clear and %d finished the other %d masks (x 3 expiries x 681 requests x 6 operations each); the one-mask product over all pairs and the all-mask product on the representative pairs are complete", nBlocks, edge, len(edgeMasks), other, len(otherMasks)))
 		}
 	}
+	{
+		uw := newWorker(c, now, newShapeTable())
+		uw.partAfterUse(c)
+		uw.close()
+	}
 	c.Set("evaluations", all.evals)
 	// (conc) two simultaneous requests: one preemption in the quick tier (XTEA is a long straight line), two in the thorough tier
 	bound := 1
@@ -990,6 +995,13 @@ func schedWorker(c *core.Ctx, args []string) {
 
 func replay(c *core.Ctx, raw json.RawMessage) {
 	if sched.ReplayCase(c, concScenarios(), raw) {
+		return
+	}
+	var ac afterUseCase
+	if json.Unmarshal(raw, &ac) == nil && ac.Part == "use" {
+		uw := newWorker(c, time.Now(), newShapeTable())
+		defer uw.close()
+		uw.afterUse(c, ac)
 		return
 	}
 	var rec caseRec
